@@ -57,7 +57,7 @@ func c03NewWorld(t *testing.T, run *vk.Run) *c03World {
 	n := newMiniNode(t, miniOpts{BruteForce: bf, RateLimit: rl})
 	w := &c03World{n: n, secret: map[int64]string{}, expired: map[int64]bool{}, run: run, all: map[string]*c03Conn{}, banned: map[string]bool{}, black: map[string]bool{}}
 	// two provisioned clients A and B (secrets recorded from their first-connect replies)
-	for i := 0; i < 3; i++ {
+	for i := 0; i < 4; i++ {
 		c := n.NewClient("")
 		w.clients = append(w.clients, c.ClientID)
 		w.secret[c.ClientID] = c.Secret
@@ -76,6 +76,20 @@ func c03NewWorld(t *testing.T, run *vk.Run) *c03World {
 		t.Fatalf("c03: update config: %v", err)
 	}
 	w.expired[exp] = true
+	// fourth client: expired although bound to a user (expiry of every kind of client
+	// must refuse authentication), expiry only just in the past
+	exp2 := w.clients[3]
+	cfg2, err := cr.GetConfig(exp2)
+	if err != nil {
+		t.Fatalf("c03: get config: %v", err)
+	}
+	past2 := time.Now().Add(-2 * time.Second)
+	cfg2.ExpiresAt = &past2
+	cfg2.UserID = "verif-user-1"
+	if err := cr.UpdateConfig(cfg2); err != nil {
+		t.Fatalf("c03: update config: %v", err)
+	}
+	w.expired[exp2] = true
 	return w
 }
 
@@ -345,7 +359,7 @@ func (w *c03World) close() { w.n.Close() }
 
 type c03Msg struct {
 	kind  string
-	idSel int // 0=A 1=B 2=expired 3=unknown
+	idSel int // 0=A 1=B 2=expired 3=unknown 4=expired user-bound client
 	ctype string
 }
 
@@ -361,7 +375,7 @@ func c03Alphabet() []c03Msg {
 				out = append(out, c03Msg{k, id, ct})
 			}
 		}
-		out = append(out, c03Msg{"P2valid", 2, ct}, c03Msg{"P2valid", 3, ct})
+		out = append(out, c03Msg{"P2valid", 2, ct}, c03Msg{"P2valid", 3, ct}, c03Msg{"P1", 4, ct}, c03Msg{"P2valid", 4, ct})
 	}
 	return out
 }
@@ -370,6 +384,8 @@ func (w *c03World) idOf(sel int) int64 {
 	switch sel {
 	case 0, 1, 2:
 		return w.clients[sel]
+	case 4:
+		return w.clients[3]
 	}
 	return 987654321
 }
